@@ -1206,7 +1206,14 @@ fn lower_expr_with_args(
                         }
                     }
                     other => {
-                        if matches!(&other, cst::Expr::CallExpr(_) | cst::Expr::ClosureExpr(_)) {
+                        // A parenthesised callee is a complete expression: the call applies to its
+                        // value and must not be pushed into it (`(f)()`, `(a + f)(x)`).
+                        if matches!(
+                            &other,
+                            cst::Expr::CallExpr(_)
+                                | cst::Expr::ClosureExpr(_)
+                                | cst::Expr::ParenExpr(_)
+                        ) {
                             let func_expr = lower_expr(ctx, other)?;
                             let call = ast::Expr::ECall {
                                 func: Box::new(func_expr),
